@@ -124,7 +124,7 @@ PIPELINES = {
         "variants": ["ring", "awslc", "nocrypto"],
         "mc": [],
         "drivers": [{"name": "all", "cmd": ["api", "{out}", "{tier}"], "random": True}],
-        "min_events": 50,
+        "min_events": 3,      # C16 owns the DefaultParams events only (one per build)
     },
     "builders": {
         "variants": ["ring", "awslc"],
@@ -237,9 +237,9 @@ PROPS = {
     "C15": _p("model_checking", ["purity", "sessions"], ["C15."],
               "MC_Purity: every interleaving of 3 threads x 2 generation calls over 19 templates (exhaustive, history hidden by a VIEW); sessions = TLC -simulate behaviours of the same module (4 threads x 6 calls interleaved with interfering calls: DN edits, key loads, failing parses, CSR parsing, the same key under other key-identifier methods, unrelated generations, CA import) replayed call by call; 19 generation templates (certificate self-signed / issued, CSR, CRL; rich names, 6 EKUs, name constraints, custom extensions; issuers that differ from each other in exactly one component: same key under two names, same name under two keys, one name under two RSA keys of one size; empty key identifier; auto-detected RSA-3072) on shared keys and issuers, each output's signature verified under the key the call was given; a hot phase of 8 threads x 2 400 generations alternating between those issuers; threads sharing Arc'd key and issuer; fresh processes (different hash-map seeds) sharing the same key files; distinct by (template, back end, process, thread, phase)",
               ops=["Gen"], exhaustive=False),
-    "C16": _p("exploration", ["features", "backends", "keyxfer", "cert-awslc"], ["C16."],
+    "C16": _p("exploration", ["features", "backends", "keyxfer", "cert-awslc", "api"], ["C16."],
               "configuration enumeration: cargo check of rcgen for all 24 feature sets {ring | aws_lc_rs | none} x {pem} x {x509-parser} x {zeroize} plus the CLI with either back end (coverage predicate featureSets=24 evaluated by TLC); the purity sessions/threads/processes run under the ring, aws-lc-rs and crypto-less builds of the harness with the same key files and their to-be-signed digests compared through the specification's write-once registers (coverage genBackends=3); keys exported by each back end loaded by the other through four entry points; the MC_Cert case set issued under aws-lc-rs and verified by ring and OpenSSL; distinct by event arguments; each build reports whether the shared key files load (KeyFile events); templates with 20-octet serial / CRL numbers whose first bit is set",
-              ops=["Build", "Gen", "KeyXfer", "KeyFile", "Cert"], exhaustive=False),
+              ops=["Build", "Gen", "KeyXfer", "KeyFile", "Cert", "DefaultParams"], exhaustive=False),
     "C17": _p("model_checking", ["import"], ["C17."],
               "every self-signed case of MC_Cert.Cases (presence product sampled 1:3 in quick, all value sweeps: 512 key-usage sets, path lengths 0..255, prefixes 0..255, SAN / subtree / DN-kind variants, key-id methods, serial classes) is generated, imported through DER and PEM, and re-issued from the imported parameters with the same key; plus OpenSSL-generated CAs over MC_Import.Cases",
               ops=["ImportCa"], exhaustive=True),
